@@ -1,6 +1,13 @@
-"""C02 local delivery: exactly once, no lost wake-up, truthful result."""
+"""C02 local delivery: exactly once, no lost wake-up, truthful result, fallback, delayed sends."""
 from checks import _sched
+
+D_IMPORTS = "From Ergo Require Import Common.Base Sched.Delayed."
 
 
 def run(c):
     _sched.run(c, "theories/Properties/C02.v", ["spec_c02"])
+    if not c.replay:
+        out = c.harness("sched", ["delayed", "-n", "400" if c.tier == "quick" else "5000"], timeout=600)
+        if out:
+            c.cases("delayed", out, D_IMPORTS, "dcase", corr=[], spec=["spec_delayed"], premise=["premise_delayed"])
+    c.assumptions.append("time.Timer.Stop returns true iff it prevented the function from running (Go runtime contract; hypothesis of C02_delayed)")
